@@ -5,6 +5,8 @@
 //   limits: int,int,...
 // stdout, per case (canonical, no floats, no addresses):
 //   <id> LOADFAIL                                    Projection::Load refused a formula (case discarded)
+//   <id> THROWS apply=<0|1>                          a calculation threw (regex complexity): case discarded;
+//                                                    apply = what Projection::Apply returned (must be 0)
 //   <id> FLAGS <K>:<deletion><addition>,...          per calculation, K in X T E D F A
 //   <id> SAMPLE <round> <K>|<hexkey>><hexresult>:<type>:<cred>|<hexkey>>~|...
 //        the effect of calculation #round alone on every key of the script before that round
@@ -155,6 +157,7 @@ int main(int argc, char** argv) {
       Script cur(script);
       std::string flags;
       std::vector<std::string> later;
+      bool thrown = false;
       for (size_t r = 0; r < formulas.size(); ++r) {
         the<Calculation> x(calc.Parse(formulas[r]));
         if (!x) {
@@ -167,7 +170,13 @@ int main(int argc, char** argv) {
         std::string sample = std::string(1, k);
         for (const auto& kv : cur) {
           Spelling s(kv.first);
-          bool applied = x->Apply(&s);
+          bool applied = false;
+          try {
+            applied = x->Apply(&s);
+          } catch (std::runtime_error&) {  // boost::regex complexity overflow: outside the modelled domain
+            thrown = true;
+            break;
+          }
           sample += "|" + hx(kv.first) + ">";
           if (!applied)
             sample += "~";
@@ -176,11 +185,18 @@ int main(int argc, char** argv) {
                       cred_units(s.properties.credibility, false);
           if (applied && !s.properties.tips.empty()) sample += "!TIPS";
         }
+        if (thrown) break;
         later.push_back(id + " SAMPLE " + std::to_string(r) + " " + sample);
         Projection one;
         one.Load(formula_list({formulas[r]}));
         one.Apply(&cur);
         later.push_back(id + " ROUND " + std::to_string(r) + " " + show_script(cur));
+      }
+      if (thrown) {
+        // Projection::Apply catches the exception and reports failure (algebra.cc:131-134)
+        bool applied = p.Apply(&script);
+        std::cout << id << " THROWS apply=" << (applied ? 1 : 0) << "\n";
+        continue;
       }
       std::cout << id << " FLAGS " << (flags.empty() ? "-" : flags) << "\n";
       for (auto& l : later) std::cout << l << "\n";
